@@ -34,6 +34,8 @@ D3 = [[1, 5], [2, 6], [3, 4]]
 DI = [[0.0, 2.0], [1.0, INF], [1.0, 3.0]]
 D8A = [[0, 3], [1, 4], [2, 3], [0, 7], [4, 6], [5, 9], [6, 7], [3, 8]]
 D8B = [[1, 2], [0, 5], [2, 6], [3, 4], [4, 9], [7, 8], [5, 6], [1, 7], [8, 10]]
+DIL_ = [[0.5, 2.0], [1.0, 3.0], [0.0, INF]]          # infinite bar LAST (ripser's H0 layout)
+_BASE = [D1, D2, D3, DI, D8A, D8B, DIL_]
 G1 = [[0, 1, 1, 0], [0, 0, 1, 0], [0, 0, 0, 1], [0, 0, 0, 0]]
 G2 = [[0, 1, 0], [0, 0, 1], [0, 0, 0]]
 G3 = [[0, 1], [0, 0]]
@@ -298,6 +300,63 @@ def thunks():
     reg("big_imager_other_sigma", lambda P: PersistenceImager(pixel_size=0.5, birth_range=(0.0, 8.0), pers_range=(0.0, 6.0), kernel_params={"sigma": 0.25}).transform(P["A8"]), ["A8"], forms=bf)
     reg("big_landscaper", lambda P: PersistenceLandscaper(hom_deg=0, num_steps=30).fit_transform([P["A8"], P["B8"]]), ["A8", "B8"], forms=bf)
 
+    # ---- non-default parameters, deferred computation, less common call styles -------------------
+    af = ("list", "int", "f64", "f32")
+    xf = ("list", "f64", "f32")
+
+    def exact_deferred(P, k):
+        L = PersLandscapeExact(dgms=[P[k], P["B"]], hom_deg=0, compute=False)
+        return [L.p_norm(2), L[0], L.sup_norm(), L]
+
+    def exact_verbose(P, k):
+        L = PersLandscapeExact(dgms=[P[k]], hom_deg=0, compute=False)
+        L.compute_landscape(verbose=True)
+        return [L, L.compute_landscape_by_depth(0)]
+
+    def approx_deferred(P, k):
+        L = PersLandscapeApprox(dgms=[P[k], P["B"]], hom_deg=0, num_steps=11, compute=False)
+        L.compute_landscape(verbose=True)
+        return [L, L.p_norm(3), (L - 2 * L).sup_norm()]
+
+    reg("exact_inf_last", lambda P: PersLandscapeExact(dgms=[P["IL"]], hom_deg=0), ["IL"], forms=xf)
+    reg("exact_inf_last_deferred", lambda P: exact_deferred(P, "IL"), ["IL", "B"], forms=xf)
+    reg("exact_deferred", lambda P: exact_deferred(P, "C"), ["C", "B"], forms=af)
+    reg("exact_verbose", lambda P: exact_verbose(P, "A8"), ["A8"], forms=af)
+    reg("exact_verbose_inf_last", lambda P: exact_verbose(P, "IL"), ["IL"], forms=xf)
+    reg("approx_inf_last", lambda P: PersLandscapeApprox(dgms=[P["IL"]], hom_deg=0, num_steps=8), ["IL"], forms=xf)
+    reg("approx_inf_mid_grid", lambda P: PersLandscapeApprox(dgms=[P["I"]], hom_deg=0, num_steps=6, start=-5.0, stop=8.0), ["I"], forms=xf)
+    reg("approx_deferred", lambda P: approx_deferred(P, "A8"), ["A8", "B"], forms=af)
+
+    def approx_from_values(P):
+        L = PersLandscapeApprox(start=0.0, stop=4.0, num_steps=5, values=P["VALS"])
+        M_ = PersLandscapeApprox(start=0.0, stop=4.0, num_steps=5, values=P["VALS"][:1] * 2)
+        return [L, L + M_, L - M_, 3 * L, L / 2.0, L.p_norm(1), L.p_norm(7), L.sup_norm(), (L - M_).p_norm(3), L[1], L.values_to_pairs()]
+
+    reg("approx_from_values", approx_from_values, ["VALS"], forms=("int", "f64", "f32"))
+
+    def exact_from_pairs(P):
+        L = PersLandscapeExact(critical_pairs=P["CP"], hom_deg=1)
+        M_ = PersLandscapeExact(critical_pairs=P["CP"][:1], hom_deg=1)
+        return [L + M_, L - M_, -L, L * 2.5, L / 4, L.p_norm(1), L.p_norm(2.5), L.sup_norm(), L[0], vectorize(L, num_steps=5)]
+
+    reg("exact_from_pairs", exact_from_pairs, ["CP"], forms=("list",))
+    reg("bottleneck_inf_last", lambda P: persim.bottleneck(P["IL"], P["I"], matching=True), ["IL", "I"], forms=xf)
+    reg("wasserstein_inf_last", lambda P: persim.wasserstein(P["IL"], P["A"], matching=True), ["IL", "A"], forms=xf)
+    reg("entropy_keep_inf_low", lambda P: persistent_entropy([P["IL"], P["I"]], keep_inf=True, val_inf=P["val_inf_low"], normalize=True), ["IL", "I", "val_inf_low"], forms=("f64", "f32"))
+    reg("snap_pl_explicit", lambda P: snap_pl([pla(P), pla(P, "C", start=0.0, stop=7.0)], start=-1.0, stop=9.0, num_steps=6), ["A", "B", "C"], forms=af)
+    reg("snap_pl_downsample", lambda P: snap_pl([pla(P, start=0.0, stop=8.0), pla(P, "C", start=0.0, stop=8.0)], num_steps=3), ["A", "B", "C"], forms=af)
+    reg("lc_approx_explicit", lambda P: lc_approx([pla(P), pla(P, "C")], P["coeffs"], start=0.0, stop=6.0, num_steps=4), ["A", "B", "C", "coeffs"], forms=af)
+    reg("average_approx_explicit", lambda P: average_approx([pla(P), pla(P, "C")], start=1.0, stop=5.0, num_steps=9), ["A", "B", "C"], forms=af)
+    reg("vectorize_window", lambda P: vectorize(ple(P, "A8"), start=P["win"][0], stop=P["win"][1], num_steps=6), ["A8", "B", "win"], forms=af)
+    reg("landscaper_bounds", lambda P: (lambda t: [t.fit_transform([P["A8"], P["B"]]), t.transform([P["B8"], P["A"]]), t])(PersistenceLandscaper(hom_deg=1, start=0.0, stop=P["stop"], num_steps=7, flatten=True)), ["A8", "B8", "A", "B", "stop"], forms=af)
+    reg("imager_n_jobs1", lambda P: imager(birth_range=(0.0, 3.0), pers_range=(0.0, 3.0)).transform([P["A"], P["C"]], n_jobs=1), ["A", "C"], forms=af)
+    reg("imager_n_jobs1_noskew", lambda P: imager(birth_range=(0.0, 3.0), pers_range=(0.0, 3.0), kernel_params={"sigma": P["sigma"]}).transform(P["A"], skew=False, n_jobs=1), ["A", "sigma"], forms=af)
+    reg("imager_sigma_array_persistence_weight", lambda P: imager(birth_range=(0.0, 3.0), pers_range=(0.0, 3.0), kernel_params={"sigma": P["sigma"]}, weight="persistence", weight_params={"n": 2.0}).transform([P["A"], P["B"]]), ["A", "B", "sigma"], forms=af)
+    reg("imager_fit_transform_noskew", lambda P: imager().fit_transform([P["A"], P["C"]], skew=False), ["A", "C"], forms=af)
+    reg("heat_tiny_sigma", lambda P: persim.heat(P["A8"], P["C"], sigma=0.05), ["A8", "C"], forms=af)
+    reg("sliced_wasserstein_M131", lambda P: persim.sliced_wasserstein(P["A8"], P["B8"], M=131), ["A8", "B8"], forms=bf)
+    reg("gromov_hausdorff_order_zero", lambda P: (np.random.seed(5), persim.gromov_hausdorff(P["CY6"], P["ST5"], mapping_sample_size_order=P["order0"]))[1], ["CY6", "ST5", "order0"], forms=("list", "int"))
+
     # ---- kernels and weights called directly --------------------------------------------------
     from persim import images_kernels as ik, images_weights as iw
 
@@ -373,16 +432,35 @@ def thunks():
     return T
 
 
-def make_pool(f):
+# value variants of the diagram arguments: x -> a*x + c on every coordinate.  The base diagrams contain
+# the special value 0 (a smallest birth of exactly 0 hides "shift to the origin" / falsy-zero slips);
+# variant 1 has no zero, variant 2 has fractional coordinates (no integer form), variant 3 is negative.
+VARIANTS = [(1, 0), (1, 3), (0.5, 1.25), (1, -4)]
+def vary(D, variant):
+    a, c = VARIANTS[variant]
+    return [[a * x + c for x in p] for p in D]
+
+
+def variant_forms(variant, forms):
+    return [f for f in forms if not (f == "int" and variant == 2)]
+
+
+def make_pool(f, variant=0):
     """Shared argument objects; diagrams in container form f (graphs: list or int array)."""
     gf = "list" if f == "list" else "int"
     dform = f
+    D1, D2, D3, DI, D8A, D8B, DIL = [vary(D, variant) for D in _BASE]
     P = {
         "A": form(D1, dform), "B": form(D2, dform), "C": form(D3, dform),
         "I": form(DI, dform if dform in ("list", "f32") else "f64"),
+        "IL": form(DIL, dform if dform in ("list", "f32") else "f64"),
         "G1": form(G1, gf), "G2": form(G2, gf), "G3": form(G3, gf),
         "CY6": form(cycle(6), gf), "CY8": form(cycle(8), gf), "ST5": form(star(5), gf),
-        "order": np.array([1.0, 1.0]), "coeffs": [2.0, -1.0], "labels": ["first", "second"],
+        "order": np.array([1.0, 1.0]), "order0": np.array([0.0, 2.0]), "coeffs": [2.0, -1.0], "labels": ["first", "second"],
+        "VALS": form([[0, 1, 2, 1, 0], [0, 0, 1, 0, 0]], "f64" if f == "list" else f),
+        "CP": [[[0.0, 0.0], [1.0, 1.0], [2.5, -0.5], [4.0, 0.0]], [[1.0, 0.0], [2.0, 1.0], [3.0, 0.0]]],
+        "val_inf_low": VARIANTS[variant][0] * 2.5 + VARIANTS[variant][1], "win": [VARIANTS[variant][0] * 1.0 + VARIANTS[variant][1], VARIANTS[variant][0] * 6.5 + VARIANTS[variant][1]],
+        "stop": VARIANTS[variant][0] * 12.0 + VARIANTS[variant][1] + 4.0,
         "plot_only": [1], "xy_range": [-1.0, 7.0, -1.0, 7.0],
         "M": np.array([[0.0, 0.0, 1.0], [1.0, 1.0, 2.0], [2.0, -1.0, 0.5]]),
         "IMG": np.arange(36, dtype=float).reshape(6, 6) / 36.0,
@@ -480,8 +558,9 @@ def cases(tier):
     yield {"kind": "order-differential"}
     T = thunks()
     names = list(T)
-    for n in names:
-        yield {"kind": "A", "thunk": n}
+    for v in range(len(VARIANTS)):
+        for n in names:
+            yield {"kind": "A", "thunk": n, "variant": v}
     for f in names:
         yield {"kind": "B-row", "f": f}
     if tier == "quick":
@@ -533,24 +612,25 @@ def run_case(case, ctx):
 def check_A(case, ctx):
     T = thunks()
     name = case["thunk"]
+    variant = case.get("variant", 0)
     spec = T[name]
     results = {}
     fp0 = defaults_fingerprint()
-    for f in spec["forms"]:
-        P = make_pool(f)
+    for f in variant_forms(variant, spec["forms"]):
+        P = make_pool(f, variant)
         before = {k: snapshot(P[k]) for k in P}
-        ctx.state((name, f))
+        ctx.state((name, f, variant))
         try:
             r1 = call(ctx, T, name, P)
         except Exception as e:  # noqa: BLE001
-            ctx.violation("form-rejected", "%s no longer accepts %s input: %s: %s" % (name, f, type(e).__name__, e), extra={"thunk": name, "form": f})
+            ctx.violation("form-rejected", "%s no longer accepts %s input: %s: %s" % (name, f, type(e).__name__, e), extra={"thunk": name, "form": f, "variant": variant})
             continue
         ctx.valid(3)
         changed = [k for k in P if snapshot(P[k]) != before[k]]
         if changed:
             ctx.violation("argument-modified", "%s modified its argument(s) %s (form %s)" % (name, changed, f),
                           observed={k: canon(P[k]) if not isinstance(P[k], list) else P[k] for k in changed}, extra={"thunk": name, "form": f})
-            P = make_pool(f)
+            P = make_pool(f, variant)
         r2 = call(ctx, T, name, P)
         if r1 != r2:
             ctx.violation("not-repeatable", "%s: a repeated call on the same arguments gives another result (form %s)" % (name, f),
@@ -585,8 +665,8 @@ def loosely_equal(a, b, tol=1e-6):
 def check_B(case, ctx):
     T = thunks()
     f = case["f"]
-    for g in T:
-        P = make_pool("f64")
+    for gi, g in enumerate(T):
+        P = make_pool("f64", (gi + len(f)) % len(VARIANTS))
         before = {k: snapshot(P[k]) for k in P}
         fp0 = defaults_fingerprint()
         ctx.state(("seq", f, g))
@@ -612,8 +692,8 @@ def check_B4(case, ctx):
     nonplot = [n for n in T if not T[n]["plot"]]
     if case.get("subset"):
         nonplot = nonplot[::6]
-    for h in nonplot:
-        P = make_pool("f64")
+    for hi, h in enumerate(nonplot):
+        P = make_pool("f64", (hi + len(f) + len(g)) % len(VARIANTS))
         before = {k: snapshot(P[k]) for k in P}
         ctx.state(("seq4", f, g, h))
         r1 = call(ctx, T, f, P)
